@@ -50,5 +50,8 @@ LiveNext == Main \/ (\E w \in W : Worker(w)) \/ GoodApp \/ (Terminated /\ UNCHAN
 Fairness == WF_vars(Main) /\ (\A w \in W : WF_vars(Worker(w))) /\ WF_vars(GoodApp)
 FairSpec == Init /\ [][LiveNext]_vars /\ Fairness
 EventuallyDone == <>(m.ended \/ m.pc = "freed")
+\* every idle, sleeping worker can be found again: it is on the stack of free threads
+NoLostWorker == \A w \in W : (t[w].pc = "park_top" /\ t[w].state = "IDLE" /\ m.thr # w)
+                                  => (\E i \in 1..Len(c.free) : c.free[i] = w)
 EndJoinsAll == m.pc = "freed" => \A w \in W : t[w].pc \in {"none", "exited"}
 =============================================================================
